@@ -24,6 +24,30 @@ CHECKS = {
         "Trusts the harness geometry model (per-axis truncation for qq_depth_max); spelling variation is C07's job.",
         "DESIGN.md section 4 C02",
     ),
+    "C05": (
+        "seeded Hypothesis generation of list models x renderings against a model expansion",
+        "Abstract list models (single / ascending / descending items) are rendered in every documented keyword, through and connective "
+        "spelling and the library's expansion (find_sec, PLSSDesc in all four layouts, Tract lots / ilots, non-sequential warnings) is "
+        "compared with the expansion computed from the model.",
+        "Trusts the harness list model; repeated keywords are limited to documented forms; degenerate ranges a-a are not generated.",
+        "DESIGN.md section 4 C05",
+    ),
+    "C06": (
+        "seeded Hypothesis generation of element sequences; differential (whole vs parts) + independent lot/acreage/duplicate model",
+        "Sequences of lot lists, lot divisions, acreages, aliquot chains and ALL are rendered with all separators and parsed whole and "
+        "element-by-element under the same settings; the whole must equal the concatenation, and an independent model decides lots, "
+        "divisions, ilots, acreages, lots_qqs and the duplicate warnings.",
+        "A bare line break after an aliquot chain and ALL followed by another element are outside the generated domain (DESIGN 6.4).",
+        "DESIGN.md section 4 C06",
+    ),
+    "C07": (
+        "seeded Hypothesis generation of per-component spellings and joiners; canonical-form and fixed-point oracle; exhaustive bare-quarter table",
+        "Every component of a chain gets an independently drawn documented spelling, case and joiner; pp_desc / preprocess() must equal the "
+        "harness-built canonical text, results must equal those of the canonical text under the same configuration, and normalising "
+        "again must change nothing. The bare two-letter quarter contexts are enumerated exhaustively.",
+        "No-space joins are generated only after 2, 4, ½, ¼ (DESIGN 6.5).",
+        "DESIGN.md section 4 C07",
+    ),
 }
 
 NOT_BUILT = {}
